@@ -19,7 +19,7 @@ SIM_UNIT = "filter steps"
 BUDGET = {"quick": {"runs": 6000, "wall": 80}, "thorough": {"runs": 60000, "wall": 1500}}
 SHRINK_LISTS = ("ops",)
 PROBES = {"C13": ["prior-correlated", "prior-diagonal", "step>=10", "time-indexed", "ukf:k<0", "ukf:k>=0",
-                  "ukf:default-k", "ukf:k-varies", "ekf:nonlinear", "pf:judged", "dims>=4", "spread>=1e4"]}
+                  "ukf:default-k", "ukf:k-varies", "ekf:nonlinear", "pf:judged", "pf:low-ess-judged", "pf:far-from-origin", "outlier-measurement", "dims>=4", "spread>=1e4"]}
 TS = float(os.environ.get("PPSIM_TOLSCALE", "1"))
 TOL = 1e-10 * TS
 
@@ -57,7 +57,8 @@ def generate(seed, tier, prop="C13"):
            "qs": round(r.uniform(-3, 3), 2), "rs": round(r.uniform(-3, 3), 2), "ps": round(r.uniform(-3, 3), 2),
            "spread": r.choice([0, 1, 2, 4]), "diagP": r.random() < 0.3, "rho": r.choice([0.5, 0.9, 1.1]),
            "particles": r.choice([2000, 10000, 40000]), "omega": round(r.uniform(0.1, 1.2), 3),
-           "kvary": r.random() < 0.3}
+           "kvary": r.random() < 0.3, "outlier": r.choice([0, 0, 0, 15, 40]),
+           "pf_f32": r.random() < 0.35, "offset": r.choice([0.0, 0.0, 300.0])}
     if filt == "PF":
         cfg["rs"] = round(r.uniform(-1, 2), 2); cfg["ps"] = round(r.uniform(-2, 1), 2); cfg["spread"] = r.choice([0, 1])
     ro = rng.stream(seed, "ops")
@@ -73,8 +74,9 @@ def simplify(plan):
     c = plan["config"]
     cands = []
     for k, v in (("n", 1), ("n", 2), ("m", 1), ("q", 1), ("q", 2), ("tv", False), ("spread", 0), ("diagP", True),
+                 ("outlier", 0), ("pf_f32", False), ("offset", 0.0), ("kvary", False),
                  ("qs", 0.0), ("rs", 0.0), ("ps", 0.0), ("kmode", "default"), ("plant", "linear"), ("rho", 0.5)):
-        if c[k] != v:
+        if c.get(k) != v:
             cands.append({**plan, "config": dict(c, **{k: v})})
     return cands
 
@@ -92,14 +94,14 @@ def _kval(kmode, n):
             "neg-most": -(n - 0.25), "frac": 0.37}[kmode]
 
 
-def _psd(P, what, step, key, need, slack=0.0):
+def _psd(P, what, step, key, need, slack=0.0, eps=2.3e-16):
     """Symmetric PSD up to round-off.  `slack` is the absolute error the update formula itself is entitled
     to: eps * cond(S) * |P_predicted| (the posterior is a difference of two matrices of that size)."""
     M = P.detach().double().numpy()
     nrm = max(np.abs(M).max(), 1e-300)
     if not np.isfinite(M).all():
         raise Violation("C13.cov", "%s: covariance not finite" % what, step, key + ":nonfinite")
-    allow = 1e-10 * TS * nrm + slack
+    allow = max(1e-10, 1e3 * eps) * TS * nrm + slack
     asym = np.abs(M - M.T).max()
     if asym > allow:
         raise Violation("C13.cov", "%s: covariance asymmetric by %.3e (norm %.3e, allowance %.3e)" % (what, asym, nrm, allow),
@@ -114,7 +116,7 @@ def _psd(P, what, step, key, need, slack=0.0):
 def execute(plan, prop, out, tr):
     c, s = plan["config"], plan["seed"]
     filt, n, m, q = c["filter"], c["n"], c["m"], c["q"]
-    dt = torch.float64
+    dt = torch.float32 if (filt == "PF" and c.get("pf_f32")) else torch.float64
     tr.ev("plan", c)
     g = lambda name, shape, sc=1.0: rng.randn(s, ("plant", name), shape, dt, sc)
     P_nl = None
@@ -129,8 +131,8 @@ def execute(plan, prop, out, tr):
         P_nl = nls_params(s, n, m, q, 3, c["omega"])
         model = GenNLS(P_nl)
         out.probe("ekf:nonlinear")
-    Q = _spd(s, "Q", n, c["qs"], c["spread"]); R = _spd(s, "R", q, c["rs"], c["spread"])
-    P = _spd(s, "P0", n, c["ps"], c["spread"])
+    Q = _spd(s, "Q", n, c["qs"], c["spread"]).to(dt); R = _spd(s, "R", q, c["rs"], c["spread"]).to(dt)
+    P = _spd(s, "P0", n, c["ps"], c["spread"]).to(dt)
     if c["diagP"]:
         P = torch.diag(torch.diagonal(P))
     if max(abs(c["qs"] - c["rs"]), abs(c["qs"] - c["ps"]), c["spread"]) >= 4:
@@ -138,7 +140,10 @@ def execute(plan, prop, out, tr):
     if n >= 4:
         out.probe("dims>=4")
     x_true = g("x0", (n,))
-    x_est = x_true + rng.randn(s, ("e0",), (n,), dt) * float(torch.sqrt(torch.diagonal(P)).mean())
+    if filt == "PF" and c.get("offset"):
+        x_true = x_true + c["offset"]           # a state far from the origin relative to its spread
+        out.probe("pf:far-from-origin")
+    x_est = (x_true + rng.randn(s, ("e0",), (n,), dt) * float(torch.sqrt(torch.diagonal(P)).mean())).to(dt)
     k = _kval(c["kmode"], n)
     if filt == "EKF":
         f = pp.module.EKF(model, Q, R)
@@ -174,7 +179,12 @@ def execute(plan, prop, out, tr):
         else:
             xt = nls_ref(P_nl, npd(x_true), npd(u), float(i))[0] + w
             y = nls_ref(P_nl, xt, npd(u), float(i))[1] + v
-        x_true = torch.tensor(xt); y = torch.tensor(y)
+        if c.get("outlier") and i == len(plan["ops"]) - 1:
+            # 'all measurement values': an outlier k sigma away along a seeded direction, at the last step
+            dirn = rng.randn(s, ("out", i), (q,)).numpy(); dirn /= np.linalg.norm(dirn) + 1e-300
+            y = y + c["outlier"] * (LR @ dirn) * np.sqrt(q)
+            out.probe("outlier-measurement")
+        x_true = torch.tensor(xt, dtype=dt); y = torch.tensor(y, dtype=dt)
         offd = (P - torch.diag(torch.diagonal(P))).abs().max().item() > 1e-12 * P.abs().max().item()
         out.probe("prior-correlated" if offd else "prior-diagonal")
         if i >= 10:
@@ -235,7 +245,7 @@ def execute(plan, prop, out, tr):
             kk = (3 - n) if k is None else k
             _psd(Pn, "%s step %d" % (filt, i), i, "psd:" + filt, need=(filt == "EKF" or kk >= 0), slack=slack)
         else:
-            _psd(Pn, "PF step %d" % i, i, "psd:PF", need=True)
+            _psd(Pn, "PF step %d" % i, i, "psd:PF", need=True, eps=1.2e-7 if dt == torch.float32 else 2.3e-16)
             # posterior mean of the documented particle model, linear plant
             Mt0 = mats(0)
             Pp = n * Pe
@@ -252,7 +262,27 @@ def execute(plan, prop, out, tr):
             ll = -0.5 * np.einsum("ij,jk,ik->i", res, np.linalg.inv(npd(R)), res)
             wt = np.exp(ll - ll.max())
             ess = wt.sum() ** 2 / (wt ** 2).sum() / Ms
-            if ess < 0.05:
+            N = c["particles"]
+            Ainv_ok = np.linalg.cond(Mt0["A"]) < 1e4
+            if ess < 0.05 and Ainv_ok and np.isfinite(npd(xn)).all():
+                # Degenerate weights: the Monte-Carlo band is meaningless, but importance weighting still has to pull
+                # the resampled set towards the measurement.  The mean pre-image of the estimate, m = A^-1(x - Bu - c1),
+                # must explain y about as well as the best few of an independent prior sample do: its Mahalanobis
+                # distance to y may not exceed the (3*ESS + 50/N)-quantile of that sample's distances.
+                Rinv = np.linalg.inv(npd(R))
+                msel = np.linalg.solve(Mt0["A"], npd(xn) - Mt0["B"] @ un - Mt0["c1"])
+                rm = yn - (Mt0["C"] @ msel + Mt0["D"] @ un + Mt0["c2"])
+                d1 = float(rm @ Rinv @ rm)
+                dz = np.einsum("ij,jk,ik->i", res, Rinv, res)
+                level = min(0.5, 3 * ess + 50.0 / N + 50.0 / Ms)
+                thr = float(np.quantile(dz, level))
+                out.probe("pf:low-ess-judged")
+                if d1 > thr * (1 + 1e-6) + 1e-9:
+                    raise Violation("C13.pf", "PF step %d with degenerate weights (ESS %.4f, N=%d): the estimate's pre-image is %.1f "
+                                    "(squared Mahalanobis) from the measurement, the best %.1f%% of an independent prior sample are "
+                                    "within %.1f: the importance weights did not select the particles that explain y" %
+                                    (i, ess, N, d1, 100 * level, thr), i, "pf:low-ess")
+            elif ess < 0.05:
                 out.declined("C13.pf(ess<5%)")
             else:
                 out.probe("pf:judged")
